@@ -57,14 +57,17 @@ def lexer(raw: str) -> _LEX_STREAM:
     start: int = 0
     is_string: bool = False
     for i, s in enumerate(raw):
+        if is_string:
+            # everything up to the closing quote belongs to the string
+            if s == '"':
+                yield (TokenType.STRING, raw[start:i])
+                is_string = False
+                start = i + 1
+            continue
         if s.isspace() or s in {')', '(', ',', '=', '"'}:
             val = raw[start:i]
             start = i + 1
-            if s == '"' and is_string:
-                yield (TokenType.STRING, val)
-                is_string = False
-                continue
-            elif val == 'any':
+            if val == 'any':
                 yield (TokenType.ANY, None)
             elif val == 'all':
                 yield (TokenType.ALL, None)
@@ -83,6 +86,8 @@ def lexer(raw: str) -> _LEX_STREAM:
                 yield (TokenType.EQUAL, None)
             elif s == '"':
                 is_string = True
+    if is_string:
+        raise MesonException(f'Unterminated string in cfg expression: {raw}')
     val = raw[start:]
     if val:
         # This should always be an identifier
